@@ -6,6 +6,7 @@ import MediaSan.Lemmas.Account
 import MediaSan.Lemmas.NonInterf
 import MediaSan.Lemmas.RawSim
 import MediaSan.Lemmas.ScanReads
+import MediaSan.Lemmas.WebpMeter
 namespace MediaSan.Props.C10
 open MediaSan
 
@@ -109,6 +110,18 @@ theorem C10_media_never_inspected (s s' : Stream) (kind : SkipKind) (cfg : Mp4.C
         b.payloadOff ≤ i ∧ i < b.endOff) :
     Mp4.sanitize s' kind cfg = Mp4.sanitize s kind cfg :=
   Mp4.media_never_inspected s kind s' cfg hlen hdiff
+
+/-- webpsan, for every input and configuration: every `read_exact` request the container code can issue is for at most
+    16 bytes (chunk headers, pad bytes, the fixed-size VP8X / ANIM / ANMF / ALPH records, the 5-byte VP8L header): no
+    buffer that follows a declared chunk size is ever requested.  Everything larger reaches the sanitizer only through
+    the lossless validator's bit reader, which pulls through its own bounded buffer (C19). -/
+theorem C10_webp_request_bound (cfg : Webp.Config) (fuel : Nat) : ReqBound 16 (Webp.sanitizeP cfg fuel) :=
+  Webp.sanitizeP_req cfg fuel
+
+/-- ... and a chunk that is only skipped - lossy `VP8 ` image data, ICCP, EXIF, XMP, unknown chunks - costs at most its
+    one pad byte of reading, whatever its declared size -/
+theorem C10_webp_skipped_not_read (r : Webp.RS) (k : Nat) : ReqBound 1 (Webp.skipData r k) :=
+  Webp.skipData_reads_pad_only r k
 
 def tinyFile : Bytes :=
   [0,0,0,20, 0x66,0x74,0x79,0x70, 0x69,0x73,0x6f,0x6d, 0,0,0,0, 0x69,0x73,0x6f,0x6d,
